@@ -77,6 +77,7 @@ func driverMain(args []string) {
 	logDigests := fs.String("logdigests", "", "write per-phase event-log digests here (determinism self-test)")
 	fs.Parse(args)
 	start := time.Now()
+	os.Setenv("VERIF_SCRATCH_DIR", *scratch)
 	bins := parseKV(*binsArg)
 	nsites := parseKV(*sitesArg)
 	if *seed == 0 {
